@@ -172,6 +172,13 @@ def step (env : Env) (line : String) : Env × Option String :=
       let w := toks[2]!.toNat!
       (env, some (showR (fun bits => s!"{sList toString bits} {fromFlags bits}") (toFlags F w)))
     | none => (env, some "NOENV")
+  | some "heapfromjson" =>
+    match runP pJson (toks.extract 1 toks.size) with
+    | .ok j => (env, some s!"OK modified={Heap.modifiedInputNodes j}")
+    | .error e => (env, some ("PARSE " ++ e))
+  | some "cliaccepts" =>   -- cliaccepts <file> <c> <m> <e>  (1 = given)
+    let g := fun (i : Nat) => toks[i]?.getD "0" == "1"
+    (env, some ("OK " ++ (if Cli.accepts ⟨g 1, g 2, g 3, g 4⟩ then "accepted" else "usage-error")))
   | some "consteq" =>      -- consteq <const> | <const>
     match runP (do let a ← pConst; let _ ← next; let b ← pConst; pure (a, b)) (toks.extract 1 toks.size) with
     | .ok (a, b) => (env, some ("OK " ++ (if Const.keyEq a b then "T" else "F")))
